@@ -262,6 +262,35 @@ def hypothesis_search(strategy, body, seed, max_examples, res, batch=None, deadl
         b += 1
 
 
+def run_machine(machine, holder, res, seed, n, steps):
+    """Run a RuleBasedStateMachine class under the common settings.  `holder` is the dict in
+    which the machine stores its Failure under "f" before raising Found.  A violation that does
+    not reproduce when Hypothesis re-runs the history (state the harness cannot reset) is still
+    reported: the first one observed, unshrunk."""
+    import warnings
+
+    import hypothesis
+    from hypothesis.stateful import run_state_machine_as_test
+
+    warnings.filterwarnings("ignore", category=hypothesis.errors.HypothesisWarning)
+    st_ = hypothesis.settings(hypothesis_settings(n), stateful_step_count=steps)
+    try:
+        run_state_machine_as_test(hypothesis.seed(derive_seed(seed, "m"))(machine), settings=st_)
+    except Found:
+        res.failures.append(holder["f"])
+    except BaseException as e:  # noqa: BLE001
+        if isinstance(e, (KeyboardInterrupt, SystemExit)):
+            raise
+        f = holder.get("first") or holder.get("f")
+        if f is None:
+            raise
+        f.details["note"] = (
+            "violation observed once; it did not reproduce when Hypothesis re-ran the history in "
+            "the same process (state outside the harness's reset), reported unshrunk"
+        )
+        res.failures.append(f)
+
+
 def run_check(modname, prop, tier, seed):
     mod = importlib.import_module(modname)
     t0 = time.monotonic()
